@@ -292,3 +292,20 @@ func VerifC11_OpenFile() {
 		}
 	}
 }
+
+// C13 (data half): a key file that is delivered in pieces (short reads) or fails still yields the
+// right key or an error - never a wrong key, which would silently serve wrong plaintext.
+func VerifC13_KeyFile() {
+	f := &verifstub.File{Data: []byte(verifKeyAHex), Size: 32, ShortBudget: verifrt.Bound("C13.keyfile.shortreads", 1, 2), Faults: verifrt.Bool("faults"), L: &verifstub.Ledger{}}
+	key, err := ReadKeyFile(f)
+	if err != nil {
+		verifrt.Assert(f.Faults, "keyfile.error-only-with-fault")
+		return
+	}
+	verifrt.Assert(len(key) == 16, "keyfile.length")
+	same := len(key) == 16
+	for i := 0; i < 16 && i < len(key); i++ {
+		same = same && key[i] == verifKeyA[i]
+	}
+	verifrt.Assert(same, "keyfile.value")
+}
